@@ -53,7 +53,7 @@ def facts(repo, features=None):
     if not os.path.exists(cfile):
         tmp = tempfile.mkdtemp(prefix='educe-mir-')
         try:
-            sysroot = subprocess.run(['rustc', '+nightly', '--print', 'sysroot'], capture_output=True, text=True)
+            sysroot = subprocess.run(['rustc', '+nightly', '--print', 'sysroot'], capture_output=True, text=True, stdin=subprocess.DEVNULL)
             if sysroot.returncode != 0:
                 raise ToolError('nightly toolchain not available: ' + sysroot.stderr[-500:])
             out = os.path.join(tmp, 'facts.jsonl')
@@ -63,8 +63,15 @@ def facts(repo, features=None):
                         'CARGO_TARGET_DIR': os.path.join(tmp, 'target'), 'CARGO_NET_OFFLINE': 'true'})
             env.pop('RUSTC_WRAPPER', None)
             fl = ['--all-features'] if features is None else ['--no-default-features'] + (['--features', ','.join(features)] if features else [])
-            p = subprocess.run(['cargo', '+nightly', 'check', '--offline', '--lib'] + fl + ['--manifest-path', os.path.join(repo, 'Cargo.toml')],
-                               capture_output=True, text=True, env=env, cwd=repo)
+            for _attempt in range(3):
+                p = subprocess.run(['cargo', '+nightly', 'check', '--offline', '--lib'] + fl + ['--manifest-path', os.path.join(repo, 'Cargo.toml')],
+                                   capture_output=True, text=True, env=env, cwd=repo, stdin=subprocess.DEVNULL)
+                # cargo's own `rustc -` probe has been seen to fail when many cargo processes start at the same moment: not a verdict
+                if p.returncode == 0 or 'to learn about target-specific information' not in p.stderr:
+                    break
+                import time as _t
+                _t.sleep(2 + 3 * _attempt)
+                shutil.rmtree(os.path.join(tmp, 'target'), ignore_errors=True)
             if p.returncode != 0:
                 raise ToolError('cargo +nightly check under the MIR driver failed: ' + p.stderr[-1500:])
             if not os.path.exists(out) or os.path.getsize(out) == 0:
